@@ -76,7 +76,13 @@ func (x *Exec) resolveTypeName(t string, pkg string) typeRes {
 		return r
 	}
 	if strings.HasPrefix(t, "*") {
-		return x.resolveTypeName(t[1:], pkg)
+		r := x.resolveTypeName(t[1:], pkg)
+		if r.goT != nil {
+			if _, isNamed := r.goT.(*types.Named); isNamed {
+				r.goT = types.NewPointer(r.goT)
+			}
+		}
+		return r
 	}
 	if strings.HasPrefix(t, "map") {
 		unsupported("map type in contract: %s", t)
@@ -812,6 +818,16 @@ func (x *Exec) defineSpec(sf *SpecFunc) string {
 	ret := x.resolveTypeName(sf.Ret, sf.Pkg)
 	x.noFacts++
 	defer func() { x.noFacts-- }()
+	if sf.Abstract {
+		x.W.defSeen[name] = true
+		var sorts []string
+		for _, f := range formals {
+			parts := strings.SplitN(strings.Trim(f, "()"), " ", 2)
+			sorts = append(sorts, parts[1])
+		}
+		x.W.defs = append(x.W.defs, fmt.Sprintf("(declare-fun %s (%s) %s)", name, strings.Join(sorts, " "), ret.sort))
+		return name
+	}
 	if sf.Opaque && x.unroll == 0 {
 		x.W.defSeen[name] = true
 		var sorts, names []string
